@@ -195,7 +195,7 @@ func c13BLSGroup[T any, PT c13Elt[T]](t *testing.T, unit, name string, ref *wcur
 			r.Count("result_identity", 1)
 		}
 	})
-	r.Sample(map[string]string{"op": "ScalarMult", "k": "r-1", "P": logs[len(logs)-1].Name})
+	r.Sample(map[string]string{"op": "ScalarMult", "k": "r-1", "k_be": verifmc.FullHex(fpx.ToBE(new(big.Int).Sub(N, big.NewInt(1)), 32)), "P": logs[len(logs)-1].Name, "P_compressed": verifmc.FullHex(ref.MarshalBLS(refPts[len(logs)-1], true))})
 	r.RequireCounter("add_P_eq_Q", 5)
 	r.RequireCounter("add_P_eq_negQ", 5)
 	r.RequireCounter("add_with_identity", 10)
